@@ -107,6 +107,10 @@ func Commit(db *NoKV.DB, latches *latch.Manager, req *pb.CommitRequest) *pb.KeyE
 				return keyErrorRetryable(err)
 			}
 			if write != nil {
+				// a rollback record is not a commit record.
+				if write.Kind == pb.Mutation_Rollback {
+					return keyErrorAbort("transaction already rolled back")
+				}
 				continue
 			}
 			return keyErrorAbort("lock not found")
